@@ -177,6 +177,7 @@ struct World {
   Obj objs[MAXOBJ];
   uint64_t* val   = nullptr; // arena payload: non-commutative accumulator
   uint64_t* stamp = nullptr; // arena payload: ownership stamp
+  uint64_t* cell  = nullptr; // arena payload: one cell per item, written by the pusher before push, read after pop
   bool check_c02  = false;   // conflict detection active (threads >= 2)
   int level_mode  = 0;       // C08: 1 = rounds by depth, 2 = priority levels
   long conflict_aborts_seen = 0;
